@@ -160,6 +160,11 @@ func C04(env *Env) {
 		}
 	}
 	env.c04Reporting()
+	// the platform's FMSPC, PCE-ID and SVN vector the gates above compare are the
+	// values pcs.PckCertificateExtensions extracts per OID (C13's rules)
+	env.via("C13", C13)
+	env.decodedReadOnly("C04/DECODED-RO", "TcbInfo")
+	r.Floor("C04/DECODED-RO", 4)
 	r.Floor("C04/ID", 10)
 	r.Floor("C04/SEL/platform", 10)
 	r.Floor("C04/SEL/module", 2)
